@@ -36,9 +36,13 @@ async fn run_watchexec(args: Args, state: state::State) -> Result<()> {
 
 	let config = config::make_config(&args, &state)?;
 	config.filterer(WatchexecFilterer::new(&args).await?);
+	#[cfg(watchexec_verif)]
+	verif::configured(&config);
 
 	info!("initialising Watchexec runtime");
 	let wx = Watchexec::with_config(config)?;
+	#[cfg(watchexec_verif)]
+	verif::runtime_created(&wx);
 
 	if !args.events.postpone {
 		debug!("kicking off with empty event");
